@@ -71,6 +71,7 @@ var seedsXML = []string{
 	"<!DOCTYPE a SYSTEM \"b>c\" [ <!-- ] --> ]><a/>", "<a:b c:d=\"e\" xmlns:a='f'/>", "<a b=\"c'd\" e='f\"g' h=\"i>j\" k='l/m?n'/>", "<a b=\"c\td\ne\rf\"/>",
 	"<?a b?><?c?><?d e='f'?>", "<a><![CDATA[b]]c]>d]]]>e</a>", "<a><!-- b -- c ---></a>", "<a >b</a >", "<a\n\tb = 'c'\n/>", "<a b='c'/><d e=\"f\"></d>",
 	"<a b", "<a b=", "<a b='c", "<!-- a", "<![CDATA[a", "<?a", "<!DOCTYPE a [", "</a", "a<b>c&amp;d</b>e", "<a>\x00</a>", "<a b=\"\x00\"/>", "<?xml?><a/>",
+	"<?php echo 1 > 0; ?><r/>", "<r><?pi a=\"?>\"?></r>", "<?pi a>b?><r c='d'/>", "<r><?pi a/>b?>c</r>",
 }
 
 var seedsJSON = []string{
